@@ -464,11 +464,14 @@ def _cond(nu):
 def _hooke_call(f, states, kind):
     """states: list of N component tuples; returns list of N result tuples."""
     ncomp = len(states[0])
-    kind = _eff_kind([x for s in states for x in s], kind)
-    if kind in SCALAR_CONV:
+    if kind not in ("mixed", "mixedarr"):
+        kind = _eff_kind([x for s in states for x in s], kind)
+    if kind in SCALAR_CONV or kind == "mixed":
+        # "mixed": whole numbers as int, the rest as float, e.g. stress(0, 0, 0.002)
+        conv = SCALAR_CONV.get(kind, lambda x: int(x) if float(x).is_integer() else float(x))
         out = []
         for s in states:
-            r = f(*[SCALAR_CONV[kind](x) for x in s])
+            r = f(*[conv(x) for x in s])
             r = r if isinstance(r, tuple) else (r,)
             if any(np.ndim(x) != 0 for x in r):
                 raise Violation("%s(scalars) returned non-scalar components" % f.__qualname__, bucket="hooke:shape")
@@ -479,7 +482,8 @@ def _hooke_call(f, states, kind):
         args = [[int(x) for x in c] for c in cols] if kind == "intlist" else cols
         shape = (len(states),)
     else:
-        args = [np.array([int(x) for x in c], dtype=np.int64) if kind == "intarr" else np.array(c, dtype=float) for c in cols]
+        whole = [kind == "intarr" or (kind == "mixedarr" and all(float(x).is_integer() for x in c)) for c in cols]
+        args = [np.array([int(x) for x in c], dtype=np.int64) if w else np.array(c, dtype=float) for c, w in zip(cols, whole)]
         if kind == "arr2":
             args = [a.reshape(-1, 2) if len(states) % 2 == 0 else a.reshape(1, -1) for a in args]
         shape = args[0].shape
@@ -505,8 +509,17 @@ def _comp():
 def _hooke_cases(draw, tier):
     E = draw(st.one_of(st.sampled_from([2.1e5, 7.0e4, 1.0, 2.0e5]), st.floats(3.0, 6.0).map(lambda x: 10.0 ** x)))
     nstates = draw(st.integers(1, 3 if tier == "quick" else 8))
-    kind = draw(st.sampled_from(["scalar", "arr1", "arr1", "arr2", "list"] + INT_KINDS))
-    if kind in INT_KINDS:
+    kind = draw(st.sampled_from(["scalar", "arr1", "arr1", "arr2", "list", "mixed", "mixedarr"] + INT_KINDS))
+    if kind in ("mixed", "mixedarr"):
+        whole = st.sampled_from([0, 0, 0, 1, -1, 100, 250])
+        part = st.one_of(whole, whole, st.floats(1e-4, 1.0), st.floats(-1.0, -1e-4))
+        states = [[draw(part) for _ in range(6)] for _ in range(nstates)]
+        if kind == "mixedarr":       # a column is integer typed only if all of its entries are whole numbers
+            for j in range(6):
+                if draw(st.booleans()):
+                    for srow in states:
+                        srow[j] = draw(whole)
+    elif kind in INT_KINDS:
         whole = st.one_of(st.integers(-1000, 1000), st.sampled_from([0, 0, 1, -1, 100]))
         states = [[draw(whole) for _ in range(6)] for _ in range(nstates)]
     else:
@@ -667,6 +680,9 @@ def _true_cases_any(draw, tier):
 
 
 def _apply2(f, a, b, kind):
+    if kind == "mixed":        # whole numbers as int, the rest as float: true_stress(355, 0.002)
+        conv = lambda x: int(x) if float(x).is_integer() else float(x)  # noqa: E731
+        return [float(f(conv(x), conv(y))) for x, y in zip(a, b)]
     kind = _eff_kind(list(a) + list(b), kind, lists=False)
     if kind in SCALAR_CONV:
         conv = SCALAR_CONV[kind]
@@ -695,7 +711,7 @@ def true_conversions(case, ctx):
     if any(0 < abs(x) < 1e-6 for x in e):
         ctx.label("tiny_strain")
     t = _apply(TSS.true_strain, e, kind)
-    sig = _apply2(TSS.true_stress, s, e, kind)
+    sig = _apply2(TSS.true_stress, s, e, "mixed" if kind == "scalar" else kind)
     for i, x in enumerate(e):
         want = math.log1p(x)
         # log(1 + e): forming 1 + e costs eps/2 (1 + e) absolutely, i.e. eps/2 in the logarithm
